@@ -126,6 +126,15 @@ class Net2d(nn.Module):
                 self.head['bn'] = nn.BatchNorm1d(5)
             self.head['relu'] = nn.ReLU()
             self.head['fc'] = nn.Linear(5, out)
+        elif h == 'fcn':          # fully convolutional: a 1x1 conv is the network output
+            self.head['out'] = nn.Conv2d(c, out, 1)
+        elif h == 'fcnskip':      # the output is produced by a sum: convB(relu(convA(x))) + convA(x)
+            self.head['oa'] = nn.Conv2d(c, out, 3, padding=1)
+            self.head['ob'] = nn.Conv2d(out, out, 3, padding=1)
+        elif h == 'dwout':        # conv -> depthwise conv + BN is the output
+            self.head['oa'] = nn.Conv2d(c, out, 1)
+            self.head['od'] = nn.Conv2d(out, out, 3, padding=1, groups=out)
+            self.head['obn'] = nn.BatchNorm2d(out)
         else:
             raise ValueError(h)
 
@@ -157,6 +166,13 @@ class Net2d(nn.Module):
             return self.head['fc'](torch.flatten(x, 1))
         if h == 'gaplin':
             return self.head['fc'](torch.flatten(self.head['gap'](x), 1))
+        if h == 'fcn':
+            return self.head['out'](x)
+        if h == 'fcnskip':
+            y = self.head['oa'](x)
+            return self.head['ob'](torch.relu(y)) + y
+        if h == 'dwout':
+            return self.head['obn'](self.head['od'](self.head['oa'](x)))
         x = self.head['fc1'](torch.flatten(x, 1))
         if 'bn' in self.head:
             x = self.head['bn'](x)
